@@ -6,6 +6,7 @@ import (
 	"flag"
 	"fmt"
 	"os"
+	"strings"
 	"sync"
 	"sync/atomic"
 
@@ -58,6 +59,17 @@ func concParallel(args []string) error {
 		vh.Event
 		Twin int `json:"twin"`
 	}
+	poisoned := false
+	for _, ops := range hists {
+		for _, op := range ops {
+			if strings.HasPrefix(op.Tag, "poison:") {
+				poisoned = true
+			}
+		}
+	}
+	if poisoned {
+		vh.PoisonGC()
+	}
 	runHist := func(h int, ops []vh.Op) ([]vh.Event, error) {
 		m := vh.NewMachine()
 		m.Hist = h
@@ -75,6 +87,7 @@ func concParallel(args []string) error {
 	// process, so that first-use effects (lazily built tables, caches) happen under contention.
 	parRounds := make([][][]vh.Event, 0, *rounds)
 	for round := 0; round < *rounds; round++ {
+		vh.HistoryBoundary()
 		results := make([][]vh.Event, len(hists))
 		errs := make([]error, *g)
 		var next int64 = -1
@@ -135,6 +148,7 @@ func concParallel(args []string) error {
 	// histories are started in ascending order.
 	solo := make([][]vh.Event, len(hists))
 	for i := len(hists) - 1; i >= 0; i-- {
+		vh.HistoryBoundary()
 		evs, err := runHist(i+1, hists[i])
 		if err != nil {
 			return err
